@@ -354,12 +354,16 @@ static void prop_enc(Tape &t, Ctx &c) {
     int vc = vcw[t.below(sizeof vcw)];
     unsigned knob = (unsigned) t.below(4);          // bit 0: INTEGER form, bit 1: SEQUENCE form; 0 = minimal DER of the chosen values
     int fr = IF_MIN, fs = IF_MIN, sf = SF_DER; unsigned npad = 1, delta = 1; B trailer;
-    if (knob & 1) { int f = 1 + (int) t.below(IF_COUNT - 1); unsigned which = (unsigned) t.below(3); npad = 1 + (unsigned) t.below(3);
+    if (knob & 1) { int f = intform_pick((unsigned) t.below(10)); unsigned which = (unsigned) t.below(3); npad = 1 + (unsigned) t.below(3);
                     if (which != 1) fs = f; if (which != 0) fr = f; }
     if (knob & 2) { sf = 1 + (int) t.below(SF_COUNT - 1); delta = 1 + (unsigned) t.below(3); trailer = tape_bytes(t, 1 + (size_t) t.below(4)); }
     B ksel = tape_bytes(t, 8); ksel.resize(ox::curve_size(cv), 0x6b);
     int entry = pick_entry(t, in); bool use_pub = t.coin();
 
+    // a negative value has no "missing leading zero" form; its counterpart is redundant ff octets
+    static const bool rneg[] = { false, false, false, true, true, true, false, false, true, true }, sneg[] = { false, true, true, false, false, true, true, false, true, false };
+    if (fr == IF_NOSIGN && rneg[vc]) fr = IF_SIGNPAD;
+    if (fs == IF_NOSIGN && sneg[vc]) fs = IF_SIGNPAD;
     B n = ox::curve_order(cv), n2 = ox::bn_add(n, n); ox::Sig sg; SInt R, S; B er, es; bool ar = true, as = true;
     // "missing leading zero" only exists for a value whose top bit is set: step the nonce until the form applies (P-521 values
     // almost never qualify; counted as not-applicable and run in minimal form)
@@ -408,6 +412,7 @@ static void prop_enc(Tape &t, Ctx &c) {
     c.count(std::string("enc:seq:") + seqform_name(sf)); c.count(std::string("curve:") + ox::curve_name(cv)); c.count(std::string("entry:") + entry_name(entry));
     c.count(has_negative ? "enc:blob-has-negative-INTEGER" : "enc:blob-all-INTEGERs-nonnegative");
     c.count(must ? "expected-accept" : lax_ok ? "expected-either(lax)" : "expected-reject");
+    c.count(must ? "enc:verdict:must-accept" : lax_ok ? "enc:verdict:either(documented laxness)" : "enc:verdict:must-reject");
     c.nontrivial(fmt("enc:%s:%s:%d:%d:%d:%d:%u", ox::curve_name(cv), vc_name(vc), fr, fs, sf, entry, (fr == IF_SIGNPAD || fs == IF_SIGNPAD) ? npad : 0));
     std::string desc = fmt("class=%s r-form=%s s-form=%s seq=%s", vc_name(vc), intform_name(fr), intform_name(fs), seqform_name(sf));
     c.sample(fmt("enc curve=%s key=%s %s entry=%s strict=%d lax=%d got=%d", ox::curve_name(cv), k->name.c_str(), desc.c_str(), entry_name(entry), (int) must, (int) lax_ok, got));
